@@ -6,7 +6,7 @@ import ast
 import re
 
 from ..cfg import cfg_of
-from ..core import seq, AnalysisError, call_name, unparse, walk_no_nested
+from ..core import named_args, seq, AnalysisError, call_name, unparse, walk_no_nested
 from ..pattern import body_is, find, has, has_expr
 from ..report import Ctx
 
@@ -86,7 +86,7 @@ self.data.drop(columns=[_COL], inplace=True)
     if ok:
         src = unparse(store[0].value)
         defs = [n for n in walk_no_nested(f.node) if isinstance(n, ast.Assign) and unparse(n.targets[0]) == src]
-        ok = len(defs) == 1 and isinstance(defs[0].value, ast.Call) and call_name(defs[0].value) == 'get_value_c' and {k.arg: unparse(k.value) for k in defs[0].value.keywords} == {'database': 'self', 'aggregation': 'False', 'prepare_ids': 'True'}
+        ok = len(defs) == 1 and isinstance(defs[0].value, ast.Call) and call_name(defs[0].value) == 'get_value_c' and {k: v for k, v in named_args(defs[0].value).items() if k in ('database', 'aggregation', 'prepare_ids')} == {'database': 'self', 'aggregation': 'False', 'prepare_ids': 'True'}
     ctx.add('C13.R2', 'Database.add_column', ok, f, 'the per-row values of the formula are stored under the new name, an existing name is refused first' if ok else 'add_column changed', 'add_column')
     f = D.methods['scale_column']
     ok = [unparse(s) for s in f.body] == ['self.data[column] *= scale']
